@@ -1,5 +1,7 @@
-"""GenParamFacts.v: what mpilot/params.py says about exception handling and kind guards in the cleaners (AST, fail-closed:
-anything not recognised yields the empty list / false, i.e. 'nothing is caught', 'no guard')."""
+"""GenParamFacts.v: what the cleaners of mpilot/params.py do with exceptions and kinds -- exception classes that end as
+ParameterNotValid, kind guards -- observed on the live classes of the snapshot with probe objects (fail-closed: an unexpected
+outcome yields `nothing is caught' / `no guard').  (An earlier version read the same facts off the AST; a harmless rewrite
+of a cleaner -- a named tuple of types, a loop over converters -- made it blind.)"""
 import ast
 import os
 
@@ -45,34 +47,67 @@ def _isinstance_guard(fn, negated):
     return []
 
 
+CANDIDATES = ["ValueError", "TypeError", "OverflowError", "KeyError", "AttributeError", "IndexError", "ZeroDivisionError", "RuntimeError"]
+
+
+def _probe_facts():
+    """The same facts read off the BEHAVIOUR of the live cleaners (the snapshot is what is imported): which exception classes
+    raised by int(value) / float(value) / the data-type look-up end as ParameterNotValid, which Python types the String cleaner
+    rejects, whether the Path cleaner rejects non-text.  Robust against rewrites of the cleaners that keep their behaviour;
+    fail-closed: an unexpected outcome of a probe counts as `not caught' / `no guard'."""
+    import builtins
+    import numpy
+    from mpilot import params as P
+    from mpilot.exceptions import ParameterNotValid
+
+    def outcome(fn):
+        try:
+            return ("ok", fn())
+        except ParameterNotValid:
+            return ("pnv", None)
+        except BaseException as ex:          # noqa: B902 -- the class of whatever escapes is the observation
+            return ("escape", type(ex).__name__)
+
+    def raiser(name):
+        exc = getattr(builtins, name)
+
+        def f(self, *a):
+            raise exc("probe")
+        return f
+
+    c_int, c_float, d_catch = [], [], []
+    for name in CANDIDATES:
+        cls = type("IntProbe", (object,), {"__int__": raiser(name), "__float__": lambda self: 1.5})
+        if outcome(lambda: P.NumberParameter().clean(cls()))[0] in ("ok", "pnv"):
+            c_int.append(name)
+    for name in CANDIDATES:
+        if not c_int:
+            break
+        cls = type("FloatProbe", (object,), {"__int__": raiser(c_int[0]), "__float__": raiser(name)})
+        if outcome(lambda: P.NumberParameter().clean(cls()))[0] == "pnv":
+            c_float.append(name)
+    for name in CANDIDATES:
+        cls = type("HashProbe", (object,), {"__hash__": raiser(name), "__eq__": lambda self, other: False})
+        if outcome(lambda: P.DataTypeParameter().clean(cls()))[0] == "pnv":
+            d_catch.append(name)
+    eq_cls = type("EqProbe", (object,), {"__eq__": raiser("TypeError"), "__hash__": lambda self: 1})
+    d_guarded = outcome(lambda: P.DataTypeParameter().clean(eq_cls()))[0] == "pnv" and \
+        outcome(lambda: P.DataTypeParameter().clean(numpy.array([1.0, 2.0])))[0] == "pnv"
+    samples = [("int", 1), ("float", 1.5), ("bool", True), ("str", "x"), ("list", [1]), ("dict", {"a": 1}), ("type", float),
+               ("ndarray", numpy.array([1.0])), ("NoneType", None), ("tuple", (1,))]
+    try:
+        from mpilot.commands import Command
+        probe_cmd = type("ProbeCommand", (Command,), {"inputs": {}, "output": None, "execute": lambda self, **kw: None})
+        samples.append(("Command", probe_cmd("probe", [], program=None, lineno=1)))
+    except BaseException:                     # noqa: B902
+        pass
+    s_rej = [name for name, v in samples if outcome(lambda: P.StringParameter().clean(v))[0] == "pnv"]
+    p_guard = outcome(lambda: P.PathParameter().clean(5, None))[0] == "pnv" and outcome(lambda: P.PathParameter().clean([1], None))[0] == "pnv"
+    return c_int, c_float, d_catch, d_guarded, s_rej, p_guard
+
+
 def generate(snap):
-    with open(os.path.join(snap, "mpilot", "params.py")) as fh:
-        tree = ast.parse(fh.read())
-    num = _method(tree, "NumberParameter", "clean")
-    c_int, c_float = [], []
-    if num is not None:
-        for st in num.body:
-            if isinstance(st, ast.Try) and len(st.body) == 1 and "int(value)" in ast.unparse(st.body[0]):
-                for h in st.handlers:
-                    c_int += _exc_names(h)
-                    for inner in h.body:
-                        if isinstance(inner, ast.Try) and "float(value)" in ast.unparse(inner.body[0]):
-                            for h2 in inner.handlers:
-                                if _raises_pnv(h2.body):
-                                    c_float += _exc_names(h2)
-    dt = _method(tree, "DataTypeParameter", "clean")
-    d_catch, d_guarded = [], False
-    if dt is not None:
-        for st in dt.body:
-            if isinstance(st, ast.Try):
-                for h in st.handlers:
-                    if _raises_pnv(h.body):
-                        d_catch += _exc_names(h)
-                d_guarded = any("in self.valid_types.values()" in ast.unparse(s) for s in st.body)
-    sp = _method(tree, "StringParameter", "clean")
-    s_rej = _isinstance_guard(sp, False) if sp is not None else []
-    pp = _method(tree, "PathParameter", "clean")
-    p_guard = bool(pp is not None and any("string_types" in x or x == "str" for x in _isinstance_guard(pp, True)))
+    c_int, c_float, d_catch, d_guarded, s_rej, p_guard = _probe_facts()
     out = ["(* GENERATED by drivers/gen_paramfacts.py from the /repo snapshot -- do not edit *)",
            "From Coq Require Import String List Bool.", "From MP Require Import Model.Params.", "Import ListNotations.",
            "Open Scope string_scope.", "",
